@@ -5,14 +5,86 @@ ROOT = os.path.dirname(os.path.dirname(os.path.abspath(__file__)))
 
 # id -> (technique, level text, level note, design ref)
 CHECKS = {
+ "C01": ("proptest over generated volume specs (header + bzip2 LDM records of an independently encoded message stream); oracle = the spec as independent record + run-length grouping model + C07 closed forms",
+         "Hundreds (quick) to tens of thousands (thorough) of generated volumes - single radial, single elevation, SAILS-like revisits, final run of one, 720-radial sweeps, metadata frames anywhere, arbitrary record splits, 8/16-bit moments - plus full-size 14x720 volumes; File::scan must return exactly the encoded radials in order, grouped in maximal runs, with the first VOL block's VCP. Sampled, not exhaustive.",
+         "Trusted: the independent wire/container encoder, libbz2 as compressor, the run-length model. Record splits only at message boundaries; every record bzip2-compressed, as the statement prescribes.",
+         "DESIGN.md §4 C01"),
+ "C02": ("enumeration of all 1024 block subsets with fingerprint values + proptest over layouts/values; oracle = independent encoder byte offsets, per field",
+         "Every block subset is covered with values that differ per field (so transposed same-typed fields are visible) under several pointer/physical orders, gaps and decode offsets; random messages add arbitrary values (floats by bit pattern), gates to 65535 and both word sizes. ~90 fields compared individually.",
+         "Trusted: independent encoder offsets (type-31 header 32 B, VOL 52, ELV 12, RAD 28, moment header 28 + gates*word/8). Duplicate names / overlapping blocks are C04's domain.",
+         "DESIGN.md §4 C02"),
+ "C03": ("proptest over message sequences (all 256 type codes, contiguous type-31) with a truncation sweep; oracle = per-message spec comparison, equality with stand-alone decoding, boundary model for cuts",
+         "Streams of 0..600 messages; N in = N out, message i equals its stand-alone decoding and its spec; every cut point (small streams) or +-40 bytes around boundaries plus random points must give exactly k messages inside a header fragment and an error inside a body; same through Record::messages.",
+         "Trusted: independent encoder and the C02/C10/C11/C12 comparators. Type-31 layouts contiguous with finite floats, as the statement restricts.",
+         "DESIGN.md §4 C03"),
+ "C04": ("structure-aware mutation (proptest) + exhaustive short lengths + random bytes, thorough tier adds coverage-guided libFuzzer; oracle = catch_unwind, counting allocator bound, per-call timer around every decode entry point",
+         "Every entry point of the decode crate and the radial conversion are run on mutated valid streams (field-directed extremes: counts, pointers, names, gates, word sizes), all lengths 0..=128, every prefix of valid streams and random buffers to 8 KiB; no panic, peak allocation <= 16 MiB + 64*len, calls timed. The thorough tier adds a 16-process libFuzzer campaign with the same oracle inside the target.",
+         "Observed bounds, not proofs: termination and memory are measured per input; a slow call is inconclusive (exit 2). Accessor panics on out-of-domain codes are outside the statement.",
+         "DESIGN.md §4 C04"),
+ "C05": ("proptest over container specs (header, records, payload kinds); oracle = tiling identities and payload round-trip",
+         "Generated files with 0..40 records, positive/negative prefixes, zero-length bodies, payloads that are empty, tiny, 64-300 KiB, fake-magic, themselves bzip2, or valid message streams: records() tiles the remainder exactly, compressed() iff 'BZ' follows the prefix, decompress() returns the payload byte-for-byte, the error cases are errors, header accessors return the encoded values.",
+         "Trusted: independent container encoder; libbz2 only produces bodies, the oracle is the payload.",
+         "DESIGN.md §4 C05"),
+ "C06": ("exhaustive boundary lengths + every truncation point of valid volumes/chunks + proptest corruption of size prefixes and bzip2 bodies + random bytes, thorough tier adds libFuzzer; oracle = catch_unwind + timer around every public call, shorter-list shape",
+         "All lengths 0..=64 (plain and magic-prefixed), every truncation point of generated volumes and chunks (with the prefix-consistent shorter-list shape), corrupted size prefixes (0, 1, remainder+-1, i32::MAX/MIN, -1), corrupted bzip2 bodies and random bytes: File/Record/Chunk operations incl. Debug and scan return a value or an error.",
+         "Observed, not proved; a slow call is inconclusive.",
+         "DESIGN.md §4 C06"),
+ "C07": ("proptest over messages built from public fields + exhaustive raw-value tables (all 256 / 65536 raws) under thousands of (scale, offset) pairs; oracle = closed-form map and decode-vs-model differential",
+         "radial() == into_radial(), every accessor mapped from the header, one value per gate by the closed form for 8- and 16-bit moments, decode level == model level; every raw value of both word sizes is enumerated per (scale, offset) table.",
+         "Float tolerance 1e-6 relative; scale == 0 with raw in {0,1} only requires the two levels to agree.",
+         "DESIGN.md §4 C07"),
  "C08": ("exhaustive enumeration of all 65535 day counts per carrier against closed-form epoch arithmetic + Hinnant civil-from-days",
          "Every in-domain day count is enumerated for all seven date/time carriers (with boundary and seeded times of day, and all 1440 minutes on sampled days); the accessor must equal (d-1) days + t exactly, by two independent computations. Out-of-domain values are probed on a fixed grid for the no-panic clause. The day axis is complete; the time axis is sampled.",
          "Trusted: closed-form arithmetic in harness/src/model.rs, the independent wire encoder (field offsets), chrono's getters used only to read back the returned value.",
          "DESIGN.md §4 C08"),
+ "C09": ("proptest over run lists and sweep pairs + exhaustive small sequences; oracle = run-length and stable-merge reference models",
+         "All sequences of length <= 7 over three elevation values, plus generated sequences up to 2000 radials (single radial, final run of one, revisits) and sweep pairs with duplicated/unsorted azimuths: conservation, labelling, maximality, stable tie order, mismatch error.",
+         "Trusted: the two reference models; radial identity carried in a unique tag.",
+         "DESIGN.md §4 C09"),
  "C10": ("exhaustive enumeration (256 type codes, 65536 sizes x 16 pairs) + proptest over (count, number) pairs and full headers, oracle = independent encoder offsets and the documented size rule",
          "The type and size axes are enumerated completely; the 2^32 (count, number) space and the remaining header fields are sampled with proptest (hundreds of thousands to millions of cases). Each header is encoded by an independent encoder, decoded by the code, and every accessor compared with the rule in the property statement.",
          "Trusted: independent wire encoder offsets; the type table transcribed from the ICD/enum documentation. rda_redundant_channel judged on its six defined codes only.",
          "DESIGN.md §4 C10"),
+ "C11": ("exhaustive 2^16 / 2^8 raw values per accessor + proptest over frames with every cut count; oracle = independent encoder offsets, closed forms, documented bit ranges",
+         "All 65536 raw values for every angle, rate, threshold and bit-field accessor (plain and uom), all 256 for byte codes; layout of header and cuts for every k in 0..=51 through both entry points; declared counts 52..65535 must be errors.",
+         "Trusted: encoder offsets and the closed forms quoted in the property.",
+         "DESIGN.md §4 C11"),
+ "C12": ("exhaustive 2^16 per flag word / coded field / alarm code + proptest over 60-halfword messages; oracle = per-halfword offsets, documented code table, one-bit flip analysis",
+         "Every documented (code, meaning) pair, exhaustive one-bit analysis of every flag accessor, all 65536 alarm codes, all raw values of the scaled fields, and random 60-halfword messages compared halfword by halfword through both entry points.",
+         "Code tables come from the in-source field documentation; where value and bit label disagree both readings are admitted (see DESIGN §4 C12); spare/undocumented codes are not judged.",
+         "DESIGN.md §4 C12"),
+ "C13": ("proptest over clutter-map specs + truncation sweep; oracle = spec round-trip and prefix => error",
+         "Bodies with 0..255 segments x 360 azimuths x 0..25 (some 65535) zones decode to exactly the encoded structure; every truncation point near the start, around segment boundaries and at random positions must be an error.",
+         "Segment numbering base 0 or 1 admitted; reached through the direct entry point only.",
+         "DESIGN.md §4 C13"),
+ "C14": ("proptest over message lists decoded from generated specs; oracle = reference grouping/counting model on the decoded messages' public fields",
+         "Lists of up to ~500 messages interleaving radial runs, status, VCP and opaque messages: tiling, counts, maximal runs, singleton status/VCP groups, continuation flag, data-type counts, first/last azimuth and time, time range, VCP set, info structs.",
+         "Coded fields kept inside their documented domains (the statement's precondition).",
+         "DESIGN.md §4 C14"),
+ "C15": ("exhaustive enumeration of all bucket shapes (sizes 1..=64 and 999) through a guarded wrapper of the search + proptest over shapes against a loopback S3 simulator; oracle = newest populated directory, request log",
+         "All 998 002 production-size shapes and all shapes for sizes 1..64 go through the real search routine; the real get_latest_volume runs over HTTP against simulated buckets (boundary positions fixed, others sampled): result, call count == requests logged, probes only SITE/<1..999>/ with max-keys=1, logarithmic bound.",
+         "Hook: feature verif-hooks (search wrapper, endpoint override). Contiguous run with distinct increasing times, as the statement restricts.",
+         "DESIGN.md §4 C15"),
+ "C16": ("exhaustive 999 x 55 position space and full successor cycles + proptest over archive names and arbitrary Unicode strings; oracle = parse-back, successor model, no-panic",
+         "Every (volume, sequence) position with three prefixes, all 55x55 with_sequence pairs, five complete 54 945-step cycles, sampled valid archive names (leap days boosted) and strings with multi-byte characters straddling the slice offsets.",
+         "name_prefix/next_chunk only on names of >= 15 bytes.",
+         "DESIGN.md §4 C16"),
+ "C17": ("proptest over bucket worlds and fault responses against a loopback S3 simulator; oracle = simulator contents and request log",
+         "Thousands of generated listings (escaped / non-ASCII keys, decoys, sizes to 2^64-1, timestamp formats, truncation, bad Size, garbled bodies) and downloads (0 B..2 MiB, 200/404/other statuses, Last-Modified variants, cut transfers) through the four public functions.",
+         "Hook: endpoint override. Keys restricted to the documented segment forms and XML-carriable characters; non-claimed faults exercised for totality only.",
+         "DESIGN.md §4 C17"),
+ "C18": ("model-based proptest (world scripts shrink as one value) against a scripted S3 simulator under tokio's paused clock, with the two consumer races gated; oracle = history invariants vs the uploader model",
+         "Hundreds (quick) to thousands (thorough) of scenarios: start positions incl. 997/998/999/1 and sequence 55, per-chunk delays and transient faults, uploader ahead at volume switches, wrap 999->1, stop / dropped consumer after k deliveries, missing chunk; deliveries must follow the script exactly, payloads and labels intact, outcome as specified, no skipping ahead.",
+         "Interleavings = request-count-driven visibility + two gated races; liveness bounded by a 60 s real-time watchdog (inconclusive, not violation).",
+         "DESIGN.md §4 C18"),
+ "C19": ("exhaustive sequences 1..=200 per cut list (all resolution patterns up to 10 cuts) + proptest over cut lists and timing histories; oracle = cumulative-walk and rolling-mean models",
+         "Chunk->cut mapping over every sequence for enumerated and generated cut lists; estimates for every kind of previous chunk (incl. 0, >55, non-numeric), histories of up to 50 samples over several keys, stats present or not.",
+         "Attempt adjustment only bounded (formula not fixed by the statement); wall-clock base cases only bounded below.",
+         "DESIGN.md §4 C19"),
+ "C20": ("enumeration of the feature power-set with the compiler as oracle (cargo check per cell), failing cells shrunk by greedy feature removal",
+         "Thorough: all 1044 cells (8+4+8+1024). Quick: all cells of the three small crates plus ~60 structured and seeded cells of nexrad-data. Feature lists are read from the Cargo.toml files of the working tree.",
+         "rustc/cargo are the oracle; warnings are not failures; verif-hooks is excluded.",
+         "DESIGN.md §4 C20"),
 }
 NOT_YET = {}  # id -> reason (only while a check is not built)
 
@@ -46,6 +118,7 @@ manifest = {
         "add_only": True,
     },
     "engines": [
+        {"name": "featmatrix", "path": "/verif/featmatrix.py", "serves_properties": ["C20"], "kind_free_text": "Python driver: cargo check over the enumerated feature power-set, greedy shrinking of failing cells"},
         {"name": "nexrad-verif", "path": "/verif/harness", "serves_properties": [p for p in ids if p in CHECKS and p != "C20"],
          "kind_free_text": "Rust binary: seeded proptest runners (16 workers), exhaustive enumerators, independent ICD wire encoder, reference models, loopback S3 simulator under tokio's paused clock; writes evidence and shrunk replay files"},
     ],
